@@ -250,10 +250,17 @@ def g_words(ctx, rng, i):
                 return m
         return np.eye(n) + np.triu(np.ones((n, n)), 1)
 
-    s = g.Transformation(well_conditioned((i // 4) % 3))
-    t = g.Transformation(well_conditioned((i // 12) % 6))
+    ms, mt = well_conditioned((i // 4) % 3), well_conditioned((i // 12) % 6)
+    s = g.Transformation(ms)
+    t = g.Transformation(mt)
+    if i % 5 == 2:
+        # the same (1, 1)-tensor handed over in the other storage layout: contravariant index first (what transpose() returns)
+        from geometer.base import Tensor
+
+        s = g.Transformation(Tensor(np.asarray(ms).T, covariant=[1]))
+        t = g.Transformation(g.Transformation(mt).transpose())
     gens = {"s": s, "t": t, "S": s.inverse(), "T": t.inverse()}
-    mats = {"s": np.asarray(s.array), "t": np.asarray(t.array)}
+    mats = {"s": np.asarray(ms), "t": np.asarray(mt)}
     si, _ = xform._inv(mats["s"])
     ti, _ = xform._inv(mats["t"])
     mats["S"], mats["T"] = si, ti
